@@ -69,6 +69,10 @@ impl HttpObs {
 /// (the runtime's clock is paused and jumps to the next timer when idle), so any time-dependent handling of a slow
 /// upload shows, whatever its constant
 pub static STALL_ALL: std::sync::atomic::AtomicBool = std::sync::atomic::AtomicBool::new(false);
+/// per-chunk delays (virtual milliseconds before each chunk) for the NEXT request, read when the call is made (not when
+/// its future is first polled), so that two requests can be prepared one after the other and then run concurrently,
+/// their chunks interleaving as on a real socket; the scenario that sets it pauses the clock itself
+pub static DELAYS_NEXT: std::sync::Mutex<Option<Vec<u64>>> = std::sync::Mutex::new(None);
 pub static STALL_NEXT: std::sync::atomic::AtomicBool = std::sync::atomic::AtomicBool::new(false);
 
 pub type Caller = Box<dyn Fn(ReqSpec) -> LocalBoxFuture<'static, HttpObs>>;
@@ -77,6 +81,7 @@ pub async fn make_caller(web: WebServer) -> Caller {
     let app = Rc::new(test::init_service(App::new().configure(move |c| web.config(c))).await);
     Box::new(move |spec: ReqSpec| {
         let app = app.clone();
+        let delays: Option<Vec<u64>> = DELAYS_NEXT.lock().unwrap().take();
         Box::pin(async move {
             let fut = async {
                 let m = Method::from_bytes(spec.method.as_bytes()).unwrap();
@@ -95,7 +100,16 @@ pub async fn make_caller(web: WebServer) -> Caller {
                 stall = stall && raw.len() >= 2;
                 let nchunks = raw.len();
                 let chunks: Vec<Result<Bytes, PayloadError>> = raw.into_iter().map(|c| Ok(Bytes::from(c))).collect();
-                let s: std::pin::Pin<Box<dyn futures::Stream<Item = Result<Bytes, PayloadError>>>> = if stall {
+                let s: std::pin::Pin<Box<dyn futures::Stream<Item = Result<Bytes, PayloadError>>>> = if let Some(delays) = delays {
+                    use futures::StreamExt;
+                    Box::pin(futures::stream::iter(chunks.into_iter().enumerate()).then(move |(i, c)| {
+                        let d = delays.get(i).cloned().unwrap_or(1);
+                        async move {
+                            tokio::time::sleep(std::time::Duration::from_millis(d)).await;
+                            c
+                        }
+                    }))
+                } else if stall {
                     use futures::StreamExt;
                     tokio::time::pause();
                     Box::pin(futures::stream::iter(chunks.into_iter().enumerate()).then(move |(i, c)| async move {
